@@ -329,7 +329,7 @@ def run_tlc(module, cfg, env=None, workers=1, simulate=None, depth=None, seed=No
             timeout=1800, coverage=False, extra=None, xmx="2g", deque=False, cwd=None):
     """Run TLC on spec/<module>.tla with spec/<cfg>.  Returns TlcResult."""
     meta = tempfile.mkdtemp(prefix="tlcmeta-", dir=tmproot())
-    cmd = ["java", "-XX:+UseParallelGC", "-Xmx" + xmx]
+    cmd = ["java", "-XX:+UseParallelGC", "-Xss64m", "-Xmx" + xmx]
     if deque:
         cmd.append("-Dtlc2.tool.queue.IStateQueue=StateDeque")
     cmd += ["-cp", TLC_JAR, "tlc2.TLC", "-workers", str(workers), "-metadir", meta,
@@ -493,8 +493,15 @@ def judge(module, cfg, records, shards=None, timeout=1800, group_key=None):
     fails, gen, dist = [], 0, 0
     for k, r in enumerate(results):
         if r.error or r.violation:
+            lines = r.out.splitlines()
+            if os.environ.get("VERIF_DEBUG_DIR"):
+                with open(os.path.join(os.environ["VERIF_DEBUG_DIR"], "judge_fail_%d.out" % k), "w") as fh:
+                    fh.write(r.cmd + "\n" + r.out)
+            hits = [n for n, ln in enumerate(lines) if re.search(r"rror|xception", ln)
+                    and "No error has been found" not in ln]
+            ctx = lines[hits[0]:hits[0] + 25] if hits else lines[-40:]
             raise Machinery("trace validation (%s/%s shard %d) failed to run: %s\n%s" % (
-                module, cfg, k, r.error or r.violation, "\n".join(r.out.splitlines()[-40:])))
+                module, cfg, k, r.error or r.violation, "\n".join(ctx)))
         if r.distinct < len(buckets[k]) + 1:
             raise Machinery("trace validation consumed %d of %d records (%s)" % (
                 r.distinct - 1, len(buckets[k]), module))
